@@ -23,12 +23,18 @@ class StmtMixin:
         if m is None:
             raise Unsupported("statement %s" % type(st).__name__)
         self.cur_line = getattr(st, "lineno", None)
-        cuts = getattr(env, "cuts", None)
-        if cuts and st.lineno in cuts:
-            for j, cl in enumerate(cuts[st.lineno]):
-                t = self.spec_bool(cl, env)
-                self.ctx.oblige("%s:cut@%d.%d" % (env.fname, st.lineno - env.func.lineno, j), "assert", t, site=st.lineno, note=cl)
-                self.ctx.assume(t)
+        anchors = getattr(env, "anchors", None)
+        if anchors and id(st) in anchors:
+            for kind, label, payload in anchors[id(st)]:
+                if kind == "ghost":
+                    for locn, expr in payload.items():
+                        val = self.spec_val(expr, env)
+                        self.assign(ast.parse(locn, mode="eval").body, val, env)
+                else:
+                    for j, cl in enumerate(payload):
+                        t = self.spec_bool(cl, env)
+                        self.ctx.oblige("%s:cut[%s].%d" % (env.fname, label, j), "assert", t, site=st.lineno, note=cl)
+                        self.ctx.assume(t)
         return m(st, env)
 
     def s_Pass(self, st, env):
@@ -55,6 +61,7 @@ class StmtMixin:
         v = self.evalv(st.test, env)
         if not self.ctx.branch(self.truth(v)):
             raise PyRaise("AssertionError", implicit="assert at line %d" % st.lineno, site=st.lineno)
+        self._narrow_from_test(st.test, env, True)
 
     def s_Raise(self, st, env):
         if st.exc is None:
@@ -263,7 +270,9 @@ class StmtMixin:
     def s_If(self, st, env):
         c = self.evalv(st.test, env) if not self._is_pyobj_test(st.test, env) else None
         t = self.truth(c)
-        if self.ctx.branch(t):
+        d = self.ctx.branch(t)
+        self._narrow_from_test(st.test, env, d)
+        if d:
             self.exec_block(st.body, env)
         else:
             self.exec_block(st.orelse, env)
@@ -527,6 +536,40 @@ class StmtMixin:
 
     def s_ImportFrom(self, st, env):
         pass
+
+
+def resolve_anchors(fnode, contract):
+    """Map id(statement) -> [(kind, label, payload)] for the contract's cuts and ghost updates."""
+    stmts = [n for n in ast.walk(fnode) if isinstance(n, ast.stmt) and n is not fnode]
+    stmts.sort(key=lambda n: (n.lineno, n.col_offset))
+    out: dict[int, list] = {}
+    missing = []
+    for kind, table in (("ghost", contract.ghost_at), ("cut", contract.cuts)):
+        for anchor, payload in table.items():
+            text, _, nth = anchor.partition("#")
+            nth = int(nth) if nth else 0
+            if text == "return":
+                cands = [s for s in stmts if isinstance(s, ast.Return)]
+            else:
+                norm = ast.unparse(ast.parse(text).body[0]) if text.strip() else ""
+                cands = [s for s in stmts if _head(s) == norm]
+            if nth >= len(cands):
+                missing.append(anchor)
+                continue
+            out.setdefault(id(cands[nth]), []).append((kind, anchor, payload))
+    return out, missing
+
+
+def _head(st):
+    """Unparsed text of a statement; compound statements are matched by their header line only."""
+    if isinstance(st, (ast.If, ast.While)):
+        return ast.unparse(st.test).join(["if " if isinstance(st, ast.If) else "while ", ":"])
+    if isinstance(st, ast.For):
+        return "for %s in %s:" % (ast.unparse(st.target), ast.unparse(st.iter))
+    try:
+        return ast.unparse(st)
+    except Exception:
+        return ""
 
 
 class ExcValue(PyObj):
